@@ -154,8 +154,8 @@ impl Check for C01 {
     }
     fn cases(&self, tier: Tier) -> u64 {
         match tier {
-            Tier::Quick => 200_000,
-            Tier::Thorough => 20_000_000,
+            Tier::Quick => 2_000_000,
+            Tier::Thorough => 200_000_000,
         }
     }
     fn rule(&self) -> String {
